@@ -78,6 +78,8 @@ type scn struct {
 	counts   map[string]int
 	gates    map[string]chan struct{}
 	attempt  int
+	conns    []*memConn
+	leaks    []string
 	discSent bool
 
 	svc    *client.Service
@@ -454,4 +456,11 @@ func (s *scn) run() {
 	// final quiescence: Stop(true) (false if not running), then every future ever returned must be resolved
 	s.stop(true)
 	s.waitFuts(s.nfut)
+	s.mu.Lock()
+	for _, old := range s.conns {
+		if !old.isClosed() {
+			s.leaks = append(s.leaks, fmt.Sprintf("connection-%d-still-open-after-the-final-Stop", old.idx))
+		}
+	}
+	s.mu.Unlock()
 }
